@@ -52,6 +52,7 @@ class Interp(object):
         self.call_hooks = []
         self.loading_ctx = None
         self.persistent = {}      # id -> object: pre-existing heap (frame checks)
+        self.loop_frames = []     # (pre-loop objects, writes) per open cut loop
         self.range_bound = RANGE_BOUND
 
     # ------------------------------------------------------------------
@@ -423,6 +424,7 @@ class Interp(object):
         annot.used = True
         for n, f in annot.invariant(self, env):
             ctx.oblige('%s/inv-init/%s' % (name, n), f, kind='inv-init')
+        self.freeze_for_loop(env)
         self.havoc_locals(s, env, annot)
         if annot.havoc_ghost:
             annot.havoc_ghost(self, env)
@@ -430,14 +432,21 @@ class Interp(object):
             ctx.assume(f)
         v0 = annot.variant(self, env) if annot.variant else None
         if not self.truth(self.eval(s.test, env), _lbl(env, s)):
+            self.loop_frames.pop()
             yield from self.exec_block(s.orelse, env)
             return
+        depth = len(self.loop_frames)
         try:
             yield from self.exec_block(s.body, env)
         except BreakSig:
+            self.end_loop_frame(annot, name)
             return
         except ContinueSig:
             pass
+        except BaseException:
+            del self.loop_frames[depth - 1:]
+            raise
+        self.end_loop_frame(annot, name)
         for n, f in annot.invariant(self, env):
             ctx.oblige('%s/inv-pres/%s' % (name, n), f, kind='inv-pres')
         if v0 is not None:
@@ -453,6 +462,7 @@ class Interp(object):
                 names.add(n.id)
             elif isinstance(n, ast.ExceptHandler) and n.name:
                 names.add(n.name)
+        names |= set((annot.types or {}).keys())
         for nm in sorted(names):
             if nm not in env.vars or nm in skip:
                 continue
@@ -474,6 +484,15 @@ class Interp(object):
 
     def fresh(self, ty, hint='v'):
         c = self.ctx
+        if ty == 'seq':
+            # an arbitrary list of strings: symbolic length, uninterpreted
+            # element function
+            n = c.fresh_int(hint + '.len')
+            c.assume(n >= 0)
+            f = z3.Function(c.fresh_name(hint + '.at'),
+                            z3.IntSort(), z3.StringSort())
+            return SymSeq(n, lambda i, f=f: f(i if z3.is_expr(i) else z3.IntVal(i)),
+                          ('havoc', hint, str(n)))
         if ty == 'int':
             return Sym(c.fresh_int(hint), 'int')
         if ty == 'bool':
@@ -518,6 +537,7 @@ class Interp(object):
         indexed = isinstance(seq, SymSeq)
         for nm, f in annot.invariant(self, env, seq, z3.IntVal(0)):
             ctx.oblige('%s/inv-init/%s' % (name, nm), f, kind='inv-init')
+        self.freeze_for_loop(env)
         self.havoc_locals(_Body(s.body + [ast.Expr(value=s.target)]), env,
                           annot, skip=_target_names(s.target))
         if annot.havoc_ghost:
@@ -544,18 +564,25 @@ class Interp(object):
                 if x2 is not None:
                     x = x2
             self.assign(s.target, x, env)
+            depth = len(self.loop_frames)
             try:
                 yield from self.exec_block(s.body, env)
             except BreakSig:
+                self.end_loop_frame(annot, name)
                 return
             except ContinueSig:
                 pass
+            except BaseException:
+                del self.loop_frames[depth - 1:]
+                raise
+            self.end_loop_frame(annot, name)
             if annot.at_iteration_end:
                 annot.at_iteration_end(self, env, seq, i, x)
             for nm, f in annot.invariant(self, env, seq, i + 1):
                 ctx.oblige('%s/inv-pres/%s' % (name, nm), f, kind='inv-pres')
             raise PathEnd()
         else:
+            self.loop_frames.pop()
             if indexed:
                 ctx.assume(i == n)
             yield from self.exec_block(s.orelse, env)
@@ -657,7 +684,46 @@ class Interp(object):
             elif isinstance(x, BoundMethod):
                 todo.append(x.self_obj)
 
+    def freeze_for_loop(self, env):
+        """objects that exist before a cut loop: a write to one of them inside
+        the body is not covered by havocking the locals, so the cut would be
+        unsound; such writes are recorded and reported by end_loop_frame"""
+        seen = {}
+        todo = list(env.vars.values())
+        while todo:
+            x = todo.pop()
+            if isinstance(x, (Obj, list, dict, SetV, SymSeq)):
+                if id(x) in seen:
+                    continue
+                seen[id(x)] = x
+            if isinstance(x, Obj):
+                todo.extend(x.attrs.values())
+                if isinstance(x, TupleObj):
+                    todo.extend(x.items)
+            elif isinstance(x, (list, tuple)):
+                todo.extend(x)
+            elif isinstance(x, dict):
+                todo.extend(x.values())
+            elif isinstance(x, SetV):
+                todo.extend(x.items)
+            elif isinstance(x, BoundMethod):
+                todo.append(x.self_obj)
+        self.loop_frames.append((seen, []))
+
+    def end_loop_frame(self, annot, where):
+        seen, writes = self.loop_frames.pop()
+        writes = [w for w in writes if w not in (getattr(annot, 'mutates', None) or ())]
+        if writes:
+            raise OutsideSubset(
+                'the body of the cut loop %s writes to an object that exists '
+                'before the loop (%s): the annotation must abstract it' % (
+                    where, ', '.join(sorted(set(writes)))[:200]))
+
     def heap_write(self, o, what):
+        for seen, writes in self.loop_frames:
+            if id(o) in seen:
+                writes.append('%s of a %s' % (what, getattr(getattr(
+                    o, 'cls', None), 'name', type(o).__name__)))
         if id(o) in self.persistent and self.ctx is not None:
             self.ctx.events.append(('heap-write', what,
                                     getattr(getattr(o, 'cls', None), 'name',
